@@ -5,23 +5,8 @@ from ..mir import generic_path
 
 
 def cond_strings(ctx, conds):
-    out = set()
-    for c in conds:
-        cd = c["cond"]
-        if cd[0] == "discr":
-            out.add("discr(%s) in %s" % ("|".join(sorted(ctx.roots(cd[1]))), sorted(c["allowed"])))
-        elif cd[0] == "cmp":
-            kind = cd[1]
-            ops = ["|".join(sorted(ctx.roots(a))) for a in cd[2]]
-            allowed = list(c["allowed"])
-            if kind == "ne":
-                kind, allowed = "eq", [not x for x in allowed]
-            if kind in ("eq", "equal"):
-                ops = sorted(ops)
-            out.add("%s(%s) is %s" % (kind, ", ".join(ops), sorted(allowed)))
-        else:
-            out.add("%s?" % cd[0])
-    return out
+    from .. import lemmas
+    return lemmas.cond_strings(ctx, conds)
 
 
 def closure_predicate(ctx, closure_val):
@@ -36,8 +21,9 @@ def closure_predicate(ctx, closure_val):
     if len(exits) != 1:
         return None
     v = exits[0][3]
+    R2 = ctx.R.with_captures(closure_val)
     if v[0] == "call" and common.cmp_kind(v[3]):
-        return (common.cmp_kind(v[3]), [set(ctx.roots(a)) for a in v[4]], cf)
+        return (common.cmp_kind(v[3]), [set(R2.roots(a)) for a in v[4]], cf)
     return None
 
 
